@@ -51,6 +51,7 @@ func (vc *VC) Generate() (err error) {
 		return fmt.Errorf("no body")
 	}
 	vc.analyzeCFG()
+	vc.findLocalAllocs()
 	if len(vc.loops) > 0 {
 		vc.reset(true)
 		vc.run()
@@ -69,23 +70,25 @@ func (vc *VC) Generate() (err error) {
 					li.modAll = true
 				}
 			}
+			li.localOnly = map[string]bool{}
 			for k := range li.mods {
-				ok := true
+				ok, local := true, true
 				for b := range li.blocks {
 					p, has := vc.rpoPos[b]
 					if !has {
 						continue
 					}
 					if vc.nonFresh[p][k] {
-						ok = false
+						ok, local = false, false
 					}
 					for _, ab := range vc.freshRoots[p][k] {
 						if !li.blocks[ab] {
-							ok = false
+							ok = false // allocated by this function, but before the loop
 						}
 					}
 				}
 				li.freshOnly[k] = ok
+				li.localOnly[k] = local
 			}
 		}
 	}
@@ -152,6 +155,11 @@ func (vc *VC) run() {
 				vc.fail("%s requires#%d: %v", shortKey(vc.key), i+1, err)
 			}
 			vc.assume(t)
+		}
+		for _, gs := range vc.spec.Sets {
+			if err := vc.setGhost(env, gs); err != nil {
+				vc.fail("%s sets %s: %v", shortKey(vc.key), gs.Name, err)
+			}
 		}
 	}
 	for pos, bi := range vc.rpo {
@@ -317,7 +325,12 @@ func (vc *VC) enterBlock(b *ssa.BasicBlock) {
 					topPre = vc.getCompIn(merged, "top", "Int")
 				}
 				nw := vc.havocComp(k, c.sort)
-				if li.freshOnly[k] && strings.HasPrefix(c.sort, "(Array Int ") {
+				if !li.freshOnly[k] && li.localOnly[k] {
+					// written only inside objects allocated by this function: references that existed at function
+					// entry keep their loop-entry value
+					topPre = vc.getCompIn(vc.entryHeap, "top", "Int")
+				}
+				if (li.freshOnly[k] || li.localOnly[k]) && strings.HasPrefix(c.sort, "(Array Int ") {
 					vc.useRoot = true
 					vc.assume(fmt.Sprintf("(forall ((r Int)) (! (=> (and (< 0 (root r)) (<= (root r) %s)) (= (select %s r) (select %s r))) :pattern ((select %s r))))", topPre, nw, pre, nw))
 				}
@@ -404,7 +417,7 @@ func (vc *VC) instr(ins ssa.Instruction) {
 		elem := x.Type().Underlying().(*types.Pointer).Elem()
 		vc.vals[x] = Term{S: r, Sort: "Int", T: x.Type()}
 		vc.writeRoot = x
-		vc.zeroInit(r, elem)
+		vc.zeroInit(r, elem, vc.localAllocs[x])
 		vc.writeRoot = nil
 	case *ssa.FieldAddr:
 		p := vc.val(x.X)
@@ -413,7 +426,8 @@ func (vc *VC) instr(ins ssa.Instruction) {
 		if !vc.isKnownNonNil(x.X) {
 			vc.safe("nil-deref", fmt.Sprintf("(not (= %s 0))", p.S), x.Pos())
 		}
-		a := &Addr{kind: "field", comp: fieldComp(st, f), base: p.S, typ: f.Type()}
+		sp := vc.spaceOf(x.X)
+		a := &Addr{space: sp, kind: "field", comp: sp + fieldComp(st, f), base: p.S, typ: f.Type()}
 		vc.comp(a.comp, vc.compSortOrEmpty(f))
 		vc.addrs[x] = a
 		if isStruct(f.Type()) {
@@ -439,6 +453,7 @@ func (vc *VC) instr(ins ssa.Instruction) {
 				vc.safe("nil-deref", fmt.Sprintf("(not (= %s 0))", p.S), x.Pos())
 			}
 			a = vc.pointeeAddr(p.S, x.Addr.Type())
+			a.space = vc.spaceOf(x.Addr)
 		}
 		vc.writeRoot = allocRoot(x.Addr)
 		vc.storeAddr(a, val.S)
@@ -697,6 +712,7 @@ func (vc *VC) unop(x *ssa.UnOp) {
 				vc.safe("nil-deref", fmt.Sprintf("(not (= %s 0))", p.S), x.Pos())
 			}
 			a = vc.pointeeAddr(p.S, x.X.Type())
+			a.space = vc.spaceOf(x.X)
 		}
 		if at, ok := a.typ.Underlying().(*types.Array); ok {
 			// whole-array load
@@ -709,6 +725,13 @@ func (vc *VC) unop(x *ssa.UnOp) {
 		vc.assume(vc.rangeFact(t.S, x.Type()))
 		if af := vc.allocFact(t.S, x.Type()); af != "true" {
 			vc.assume(af)
+			// a value read from a heap component that has not been written since function entry existed at entry
+			if _, written := vc.heap.m[a.comp]; !written && vc.heap.epoch == 0 && a.comp != "" {
+				save := vc.heap
+				vc.heap = vc.entryHeap
+				vc.assume(vc.allocFact(t.S, x.Type()))
+				vc.heap = save
+			}
 		}
 	case token.NOT:
 		vc.setVal(x, fmt.Sprintf("(not %s)", vc.val(x.X).S))
